@@ -45,6 +45,11 @@ type input struct {
 	Marks    []int64 `json:"marks"`
 	Metas    []blk   `json:"metas"` // in the order handed to the planner
 	TotalMax int64   `json:"total_max,omitempty"`
+	// FaultMarks: after the healthy sync of the marker filter, one more sync is run during
+	// which the Get of <ulid>/no-compact-mark.json of these blocks fails once (a transient
+	// error).  A sync that reports the error is followed by a healthy one, as the compactor's
+	// next iteration would do; then the planner runs.  The marks in the bucket never change.
+	FaultMarks []int64 `json:"fault_marks,omitempty"`
 }
 
 // ---- tie T ---------------------------------------------------------------
@@ -428,16 +433,43 @@ func floorDiv(a, b int64) int64 {
 	return q
 }
 
-func run(raw json.RawMessage) (common.Case, error) {
+func run(raw json.RawMessage) (c common.Case, rerr error) {
 	var in input
 	if err := json.Unmarshal(raw, &in); err != nil {
 		return common.Case{}, err
 	}
-	var c common.Case
 	e, err := newEnv(in)
 	if err != nil {
 		return c, err
 	}
+	faultySyncFailed := true
+	if len(in.FaultMarks) > 0 {
+		failing := map[string]bool{}
+		for _, id := range in.FaultMarks {
+			failing[path.Join(mkULID(id).String(), metadata.NoCompactMarkFilename)] = true
+		}
+		e.bkt.FailName = func(kind, name string) bool {
+			if kind == "get" && failing[name] {
+				delete(failing, name) // once
+				return true
+			}
+			return false
+		}
+		ferr := e.sync(in.Metas, in.Marks)
+		e.bkt.FailName = nil
+		faultySyncFailed = ferr != nil
+		if ferr != nil {
+			// the iteration is abandoned; the next one syncs again
+			if err := e.sync(in.Metas, in.Marks); err != nil {
+				return c, err
+			}
+		}
+	}
+	defer func() {
+		if len(in.FaultMarks) > 0 {
+			c.Class += fmt.Sprintf("/faulty-sync-reported=%v", faultySyncFailed)
+		}
+	}()
 	switch in.Kind {
 	case "plan":
 		ids, panicked, err := e.plan(in.Metas)
@@ -642,6 +674,13 @@ func gen(r *rand.Rand, tier string, n int) []any {
 		}
 		if in.Kind == "index" {
 			in.TotalMax = 20 + r.Int63n(600)
+		}
+		if len(in.Marks) > 0 && r.Intn(3) == 0 {
+			for _, m := range in.Marks {
+				if r.Intn(2) == 0 {
+					in.FaultMarks = append(in.FaultMarks, m)
+				}
+			}
 		}
 		if in.Kind == "plan" && r.Intn(60) == 0 {
 			in.Metas = []blk{} // outside the domain: observed panic must match the model's None
